@@ -52,6 +52,7 @@ fn main() {
                 "C11" | "C12" => rnv::c1112::main(&ctx),
                 "C09" => rnv::c09::main(&ctx),
                 "C18" => rnv::c18::main(&ctx),
+                "C06" => rnv::c06::main(&ctx),
                 "C03" => rnv::c02::main(&ctx, rnv::logmodel::Profile::Truncation),
                 _ => {
                     eprintln!("unknown property {}", id);
